@@ -339,6 +339,20 @@ func c11(c *core.Ctx) {
 						got, _ = core.ConstString(sc.Call.Args[2])
 					}
 				}
+				// set by a helper of the package that is handed the value
+				for _, h := range core.HelperCallsOf(fn) {
+					for _, sc := range core.CallsIn(h.Callee, func(call *ssa.Call, ci core.CallInfo) bool { return ci.Is("net/http.Header.Set") }) {
+						if k, _ := core.ConstString(sc.Call.Args[1]); strings.EqualFold(k, "content-type") {
+							v := sc.Call.Args[2]
+							if a, ok := h.Bind[v]; ok {
+								v = a
+							}
+							if s, ok := core.ConstString(v); ok {
+								got = s
+							}
+						}
+					}
+				}
 				_, accepted := m.want[got]
 				c.Check(accepted && m.want[got] == "proto", key, fn.Pos(), "client sends "+got+", which that kind's server selector maps to the proto codec", fmt.Sprintf("client sends Content-Type %q, which the %s server selector does not map to the proto codec", got, m.name))
 			}
@@ -594,12 +608,8 @@ func c11OneTrailer(c *core.Ctx, hcs []handlerClosure) {
 			if !ok {
 				return false
 			}
-			ci := core.InfoOf(&call.Call)
-			if ci.Static == nil || !core.PkgIs(ci.Static, "httpgrpc") || len(call.Call.Args) < 4 || core.TypeStr(call.Call.Args[0].Type()) != "io.Writer" {
-				return false
-			}
-			b, isC := core.ConstBool(call.Call.Args[len(call.Call.Args)-1])
-			return isC && b
+			isW, end := httpFrameWriteCall(call)
+			return isW && end == 1
 		}
 		edgeOK := func(b *ssa.BasicBlock, si int) bool {
 			iff, ok := b.Instrs[len(b.Instrs)-1].(*ssa.If)
@@ -635,7 +645,7 @@ func c11OneTrailer(c *core.Ctx, hcs []handlerClosure) {
 					if ci.Iface && (ci.Name == "Write" || ci.Name == "WriteHeader") {
 						later = true
 					}
-					if ci.Static != nil && core.PkgIs(ci.Static, "httpgrpc") && len(c2.Call.Args) >= 4 && core.TypeStr(c2.Call.Args[0].Type()) == "io.Writer" {
+					if isW, _ := httpFrameWriteCall(c2); isW {
 						later = true
 					}
 				}
